@@ -1052,6 +1052,9 @@ def _abs_call(obj, op, d, rule, tok, case):
         return proj.jdoc(json.loads(json.dumps(obj.to_json())), tok), None
     if op == "to_b64":
         return _hashlib.sha256(obj.to_b64().encode()).hexdigest()[:24], None
+    if op == "reload_b64":
+        new = pg.from_b64(obj.to_b64())                       # the caller goes on with the unpacked object
+        return proj.node(new, tok), new
     if op == "to_poly":
         r = []
         for active in (True, False):
@@ -1234,7 +1237,7 @@ def drv_history(case):
         step = {"h": h, "op": op, "dict": [[tok(k), [int(v[0]), int(v[1])]] for k, v in (c.get("d") or {}).items()],
                 "before": before, "res": res, "res_fresh": case["refs"][k], "hooks": hooks,
                 "has_state": step_state is not None, "res_state": step_state if step_state is not None else 0,
-                "res_is_node": op in ("assume", "reduce", "negate") and isinstance(res, dict) and "k" in res
+                "res_is_node": op in ("assume", "reduce", "negate", "reload_b64") and isinstance(res, dict) and "k" in res
                                and isinstance(step_state, dict) and "k" in step_state}
         step["raised"] = isinstance(res, dict) and "raised" in res
         if op == "add":
@@ -1248,6 +1251,8 @@ def drv_history(case):
                 store["%s_old%d" % (h, ghosts)] = obj       # the old configurator stays alive and observed
                 store[h] = new
                 initial[h] = proj.node(new, tok)
+        elif new is not None:
+            store[h] = new                                  # reload: the handle now denotes the unpacked object
         step["after"] = [[k, proj.node(v, tok)] for k, v in store.items() if k in dict(before)]
         steps.append(step)
     return [{"op": "history", "steps": steps, "handles": sorted(case["handles"])}]
